@@ -136,6 +136,25 @@ CLAIMS["C17"] = dict(
     tech=STATIC + "call-structure rules, finite decision tables and symbolic field-provenance extraction from THIR",
     engine="symx+tablex")
 
+CLAIMS["C10"] = dict(
+    cat="other",
+    text="Decides, by evaluating the printers and parsers from their typed syntax trees on model values: for every "
+         "miniscript fragment shape (all 30 variants, every alias / sugar form, every distinguishable child class in "
+         "every child position, wrapper chains) parse(print(v)) == v, printing is a fixed point and distinct shapes "
+         "print differently; the same for concrete and semantic policies; for descriptors of every kind "
+         "(incl. every taproot tree shape up to N leaves) text -> object -> text#checksum -> object; sugar table; "
+         "verify_checksum rejects every single substitution in checksum and payload of sample strings and malformed "
+         "lengths; checksum constants, alphabet, CHAR_MAP and the character->symbol expansion equal BIP-380 for every "
+         "character in every group position; TapTreeBuilder records brace depths up to depth 128 with several bottom "
+         "pairs. Keys and hashes are opaque texts (their own Display/FromStr is not decided).",
+    note="Trusted: spec/bip380.py (BIP-380 reference + model of the bech32 crate's engine); rust-bitcoin lock-time "
+         "Display; evaluator semantics and its std string / fmt models; rustc THIR. The 2/4-error detection capability "
+         "follows from the BIP-380 generator (constants decided, code distance not re-proved). Descriptor key "
+         "expressions (xpub origins, derivation paths, multipath) and wallet-policy templates are not decided.",
+    tech=STATIC + "abstract evaluation of printer and parser THIR over an exhaustive family of one- and two-level model "
+                  "shapes (locality of both sides makes the family complete per level); constant comparison with BIP-380",
+    engine="tablex")
+
 NA = {
     "C15": "commitment arithmetic over hashes with shape-dependent index arithmetic: no sound structural argument in "
            "reach decides it; structural residue (depth bounds, constructor discipline, cache coherence, order "
